@@ -6,13 +6,18 @@
    Sign is covered by construction), the account machinery is dropped (signing is always possible), the bump
    writes its minimal record unconditionally (covers "record kept" - a stutter - as well as the read-miss
    fault), a signature may or may not be released after the record update (crash between update and release).
-   Every step of Slashing (Weaken = "none", faults crash / crashafter / fail / rerr / rmiss) projects onto a
+   Every step of Slashing (Weaken = "none", faults crash / crashafter / fail / failall / rerr / rmiss) projects onto a
    finite sequence of these transitions, therefore IndInv inductive here => NoSlashable invariant there.
+   A write that fails - once ("fail") or persistently, for several calls ("failall", variable `broken` there) - is no
+   transition at all: the call that meets it stops at that write and releases nothing, so it projects onto the
+   (possibly empty) sequence of the writes it completed before.  The persistent fault therefore needs no state here.
+   What it would take to break the argument is a release WITHOUT the record update (the error swallowed): NextS.
 
      apalache-mc check --init=Init    --inv=IndInv --length=0 SlashInd.tla      (Init => IndInv)
      apalache-mc check --init=IndInit --inv=IndInv --length=1 SlashInd.tla      (IndInv /\ Next => IndInv')
      apalache-mc check --init=IndInit --next=NextW --inv=IndInv --length=1 SlashInd.tla   (must FAIL: `<` for `<=`)
-     apalache-mc check --init=IndInit --next=NextB --inv=IndInv --length=1 SlashInd.tla   (must FAIL: bump keeps source) *)
+     apalache-mc check --init=IndInit --next=NextB --inv=IndInv --length=1 SlashInd.tla   (must FAIL: bump keeps source)
+     apalache-mc check --init=IndInit --next=NextS --inv=IndInv --length=1 SlashInd.tla   (must FAIL: save error swallowed) *)
 EXTENDS Integers, FiniteSets, Apalache
 
 SPE == 32
@@ -67,9 +72,20 @@ BumpAttWriteB ==
     /\ IF af THEN rs < Ep(clock) - 1 /\ rt < Ep(clock) /\ rs' = rs ELSE rs' = 0
     /\ af' = TRUE /\ rt' = Ep(clock) /\ UNCHANGED <<clock, pf, pv, signedAtt, signedBlk>>
 
+(* seeded-change shape "saveErrSwallowed": the write of the record failed, the error got lost, the signature is released *)
+SignAttS == \E s \in Int, t \in Int, d \in Int :
+    /\ 0 <= s /\ s < t /\ t <= Ep(clock) /\ af /\ ~(s < rs \/ t <= rt)
+    /\ signedAtt' = signedAtt \union {<<s, t, d>>}
+    /\ UNCHANGED <<clock, af, rs, rt, pf, pv, signedBlk>>
+SignBlkS == \E slot \in Int, d \in Int :
+    /\ 1 <= slot /\ slot <= clock /\ pf /\ slot > pv
+    /\ signedBlk' = signedBlk \union {<<slot, d>>}
+    /\ UNCHANGED <<clock, af, rs, rt, pf, pv, signedAtt>>
+
 Next  == Tick \/ BumpAttWrite \/ BumpPropWrite \/ DelAtt \/ DelProp \/ SignAttW(TRUE) \/ SignBlk
 NextW == Tick \/ BumpAttWrite \/ BumpPropWrite \/ DelAtt \/ DelProp \/ SignAttW(FALSE) \/ SignBlk
 NextB == Tick \/ BumpAttWriteB \/ BumpPropWrite \/ DelAtt \/ DelProp \/ SignAttW(TRUE) \/ SignBlk
+NextS == Next \/ SignAttS \/ SignBlkS
 
 NoSlashable ==
     /\ \A a \in signedAtt, b \in signedAtt : a # b => (a[2] # b[2] /\ ~(a[1] < b[1] /\ b[2] < a[2]))
